@@ -233,7 +233,7 @@ package session
 
 //@ closure (*Session).Run#Logon (data []byte) (ok bool)
 //@   anchor LogonHandler
-//@   requires sessWF(s) && sessInv(s) && !sendFailed && s.side == sideAcceptor
+//@   requires sessWF(s) && sessInv(s) && !sendFailed
 //@   modifies sentN, sentAt, sendFailed, clock, s.counter.*, gOut(s.counter), gIn(s.counter), s.state, s.LogonSettings, everLogged, trigN, trigAt, routerStopped, timersStarted
 //@   call Unmarshal#1: witness perr = ret
 //@   call Unmarshal#1: witness inc = arg0
@@ -248,6 +248,8 @@ package session
 //@   ensures[C06,C16] @refused imp(!sendFailed && perr == nil && old(s.state) == WaitingLogon && s.state != SuccessfulLogged, s.state == WaitingLogon && sentN == old(sentN) + 1 && mrole(sel(sentAt, old(sentN))) == 3 && mRefSeqNum(sel(sentAt, old(sentN))) == hSeq(hdr(inc)) && imp(!pok, mRefTagID(sel(sentAt, old(sentN))) == ptag))
 //@   ensures[C06,C16] @again imp(!sendFailed && perr == nil && old(s.state) == SuccessfulLogged, s.state == SuccessfulLogged && sentN == old(sentN) + 1 && mrole(sel(sentAt, old(sentN))) == 3 && mRefSeqNum(sel(sentAt, old(sentN))) == hSeq(hdr(inc)))
 //@   ensures[C07] @timers imp(timersStarted && !old(timersStarted), s.state == SuccessfulLogged)
+//@   ensures[C06] @initiator imp(perr == nil && old(s.state) == WaitingLogonAnswer, s.state == SuccessfulLogged)
+//@   ensures[C06] @otherstates imp(perr == nil && old(s.state) != WaitingLogon && old(s.state) != WaitingLogonAnswer && old(s.state) != SuccessfulLogged, s.state == old(s.state) && sentN == old(sentN))
 
 // ---- stored messages and retransmission (C10, C07, C16, C19) -----------------------------
 // save hook: every outgoing message is stored under its own sequence number
@@ -303,3 +305,17 @@ package session
 //@     assert[C15] @deadline arg0 == s.LogonSettings.CloseTimeout
 //@   ensures[C15] @logout imp(!sendFailed, sentN == old(sentN) + 1 && mrole(sel(sentAt, old(sentN))) == 2)
 //@   ensures[C15] @answerhandler imp(err == nil, s.eventHandler.pool != nil && mhas(s.eventHandler.pool, utils.EventLogout) && len(mget(s.eventHandler.pool, utils.EventLogout)) >= 1)
+
+// ---- initiating side (C06) ----------------------------------------------------------------
+//@ func (s *Session) LogonRequest() (err error)
+//@   requires sessWF(s) && !sendFailed && s.logonRequest == nil
+//@   modifies sentN, sentAt, sendFailed, clock, s.counter.*, gOut(s.counter), gIn(s.counter), s.state, everLogged, trigN, trigAt, routerStopped, timersStarted
+//@   ensures[C06] err == nil && s.state == WaitingLogonAnswer
+//@   ensures[C06] @logon imp(!sendFailed, sentN == old(sentN) + 1 && mrole(sel(sentAt, old(sentN))) == 1 && mHeartBtInt(sel(sentAt, old(sentN))) == s.LogonSettings.HeartBtInt && mEncrypt(sel(sentAt, old(sentN))) == s.LogonSettings.EncryptMethod && mUser(sel(sentAt, old(sentN))) == s.LogonSettings.Username && mPass(sel(sentAt, old(sentN))) == s.LogonSettings.Password)
+
+//@ func (s *Session) Run() (err error)
+//@   requires sessWF(s) && !sendFailed && s.logonRequest == nil
+//@   modifies sentN, sentAt, sendFailed, clock, s.counter.*, gOut(s.counter), gIn(s.counter), s.state, everLogged, trigN, trigAt, routerStopped, timersStarted, MAP
+//@   ensures[C06] @notlogged s.state != SuccessfulLogged
+//@   ensures[C06] @firstmessage imp(s.side == sideInitiator && !sendFailed, sentN == old(sentN) + 1 && mrole(sel(sentAt, old(sentN))) == 1 && mHeartBtInt(sel(sentAt, old(sentN))) == s.LogonSettings.HeartBtInt && mEncrypt(sel(sentAt, old(sentN))) == s.LogonSettings.EncryptMethod)
+//@   ensures[C06,C07] @acceptorsilent imp(s.side != sideInitiator, sentN == old(sentN) && sentAt == old(sentAt))
